@@ -186,7 +186,7 @@ def work_recursive(args):
                 cfg["key-name"] = "key_" + signing.MATCHING_KEY[alg]
                 cfg["key-id"] = hex(rng.randrange(0, 2 ** 32))
         else:
-            cfg["key-name"] = "key_" + signing.MATCHING_KEY[alg] + rng.choice(["", "_b", "_c"])
+            cfg["key-name"] = "key_" + signing.MATCHING_KEY[alg] + rng.choice(["", "_b", "_c", ".v2", ".v2"])
             cfg["key-id"] = hex(rng.choice([0, 23, 24, 255, 256, 65535, 65536, 2 ** 31 - 32, 2 ** 32 - 1, rng.randrange(0, 2 ** 32)]))
             if rng.random() < 0.3:
                 cfg["already-signed-action"] = rng.choice(["error", "skip", "remove-old"])
